@@ -7,6 +7,7 @@
 #ifndef CONTRACTS_VERIFICATION_RULE_C01_H
 #define CONTRACTS_VERIFICATION_RULE_C01_H
 #include "contracts/verification_rule_c02.h"      /* VR_PRE / VR_POST */
+#include "tlv_element.h"
 #include "contracts/hash_alg.h"                   /* KSI_checkHashAlgorithmAt: enforced on hash.c by C17.hashalg.* */
 
 /* ------------------------------------------------ callees replaced by contract ------------------------------------------------ */
